@@ -150,6 +150,9 @@ class Run(object):
         return b"250 OK\r\n"
 
     def announce(self, changes):
+        self.sim.event(self.event_text(changes))
+
+    def event_text(self, changes):
         text = "650-CONF_CHANGED\r\n"
         for lname, vals in changes:
             name = [n for (n, t, c) in self.opt.values() if n.lower() == lname][0]
@@ -159,7 +162,7 @@ class Run(object):
             else:
                 text += "650-%s\r\n" % name
         text += "650 OK\r\n"
-        self.sim.event(text)
+        return text
 
     def concrete(self, chs):
         out = []
@@ -181,6 +184,28 @@ class Run(object):
                 for r, vals in e["store"].items():
                     name, typ, conc = self.opt[r]
                     self.sim.conf[name.lower()] = [conc[t] for t in vals]
+                if self.pick.get("midboot"):
+                    # another controller changes an option while we are still reading the configuration: Tor
+                    # answers our GETCONF for it with the old value and announces the new one (the store's)
+                    # before it answers our next command
+                    r = self.pick["midboot"]
+                    name, typ, conc = self.opt[r]
+                    final = list(self.sim.conf[name.lower()])
+                    old = [conc["x" if r.startswith("l") else "a"]] if final != [conc["x" if r.startswith("l") else "a"]] \
+                        else [conc["y" if r.startswith("l") else "b"]]
+                    self.sim.conf[name.lower()] = old
+                    state = dict(asked=False, done=False)
+                    orig_answer = self.sim.answer
+
+                    def answer(line, run=self, lname=name.lower(), final=final):
+                        if state["asked"] and not state["done"]:
+                            state["done"] = True
+                            run.sim.conf[lname] = final
+                            run.proto.dataReceived(run.event_text([(lname, final)]).encode("latin-1"))
+                        if line.upper().startswith("GETCONF ") and line.split(" ", 1)[1].lower() == lname:
+                            state["asked"] = True
+                        return orig_answer(line)
+                    self.sim.answer = answer
                 if self.pick.get("offline"):
                     # launch()-style: a config populated offline (under the caller's spelling of the
                     # option names) is attached to the running Tor afterwards
